@@ -22,7 +22,7 @@ import (
 )
 
 type vfPcStep struct {
-	A     string       `json:"a"` // write, setrate, sleep, quiesce, close, par, hold
+	A     string       `json:"a"` // write, setrate, sleep, quiesce, close, par, hold, waithold
 	S     uint32       `json:"s"`
 	SSRC  uint32       `json:"ssrc"` // header SSRC, 0 = S
 	ID    int          `json:"id"`
@@ -57,8 +57,8 @@ type vfPcRun struct {
 	evs      []vfM
 	accepted int
 	released int
-	holdMs   int // the next release blocks the pacer for this long (a slow transport)
-	byStream bool
+	holdMs   int           // the next release blocks the pacer for this long (a slow transport)
+	inHold   chan struct{} // closed when that release has arrived in the writer
 }
 
 func (r *vfPcRun) add(ev vfM) {
@@ -140,11 +140,12 @@ func vfPcExec(sc *vfPcScript, mk func(sc *vfPcScript) (vfPcTarget, error)) ([]vf
 		writers[s] = tg.Bind(s, interceptor.RTPWriterFunc(
 			func(h *rtp.Header, pl []byte, _ interceptor.Attributes) (int, error) {
 				r.mu.Lock()
-				hold := r.holdMs
+				hold, entered := r.holdMs, r.inHold
 				r.holdMs = 0
 				r.mu.Unlock()
 				r.add(vfM{"a": "rel", "s": s, "bits": vfPcBits(h, pl), "pkt": vfPcRec(h, pl)})
 				if hold > 0 {
+					close(entered)
 					time.Sleep(time.Duration(hold) * time.Millisecond)
 				}
 
@@ -195,10 +196,21 @@ func vfPcExec(sc *vfPcScript, mk func(sc *vfPcScript) (vfPcTarget, error)) ([]vf
 				r.add(vfM{"a": "setrate_ret"})
 			case "sleep":
 				time.Sleep(time.Duration(st.Ms) * time.Millisecond)
-			case "hold":
+			case "hold": // the next release will block the pacer's goroutine in the writer for Ms
 				r.mu.Lock()
 				r.holdMs = st.Ms
+				r.inHold = make(chan struct{})
 				r.mu.Unlock()
+			case "waithold": // until that release has arrived in the writer (the pacer is now blocked there)
+				r.mu.Lock()
+				entered := r.inHold
+				r.mu.Unlock()
+				if entered != nil {
+					select {
+					case <-entered:
+					case <-time.After(5 * time.Second):
+					}
+				}
 			case "par":
 				var wg sync.WaitGroup
 				for k := range st.Progs {
